@@ -360,9 +360,10 @@ def parse_methods(repo, cb_slots, visible, helper_refs, routines):
         for i, t in enumerate(toks):
             if t in cb_slots:
                 prev = toks[i - 1] if i else ""
-                if prev in (".", "::") or (prev == "->" and toks[i - 2] != "this"):
+                qualified = (prev == "->" and toks[i - 2] == "this") or (prev == "::" and toks[i - 2] == "Base")
+                if prev in (".", "::", "->") and not qualified:
                     continue
-                if t not in visible and not (prev == "->"):
+                if t not in visible and not qualified:
                     continue
                 if t not in refs:
                     refs.append(t)
@@ -619,6 +620,17 @@ MUTATIONS = [
      None),
     (METHOD_DIR + "/laplacian_eigenmaps.hpp", r"compute_laplacian\(begin, end, neighbors, distance,", "compute_laplacian(begin, end, neighbors, this->kernel,",
      "LaplacianEigenmaps passes the kernel through this->"),
+    ("include/tapkee/utils/features.hpp", r"matrix\.col\(iter - begin\)\.array\(\) = feature_vector;", "matrix.col(*iter).array() = feature_vector;",
+     "dense_matrix_from_features uses the dereferenced iterator as a column index"),
+    ("include/tapkee/routines/spe.hpp", r"callback\.distance\(\*i_iter, \*j_iter\)", "callback.distance(*i_iter, *j_iter) + 0 * (*i_iter)",
+     "SPE does arithmetic on a dereferenced iterator"),
+    ("include/tapkee/callbacks/dummy_callbacks.hpp", r"template <class Data> struct dummy_kernel_callback\s*\{\s*typedef int dummy;",
+     "template <class Data> struct dummy_kernel_callback\n{\n", "dummy_kernel_callback loses its dummy marker"),
+    ("include/tapkee/callbacks/eigen_callbacks.hpp", r"struct eigen_distance_callback\s*\{", "struct eigen_distance_callback\n{\n    typedef int dummy;",
+     "eigen_distance_callback is marked as a dummy"),
+    ("include/tapkee/traits/callbacks_traits.hpp", r"typename C::dummy\*", "typename C::dummy_t*", "is_dummy looks for another typedef"),
+    (METHOD_DIR + "/diffusion_map.hpp", r"compute_diffusion_matrix\(begin, end, distance,", "compute_diffusion_matrix(begin, end, Base::kernel,",
+     "DiffusionMap passes Base::kernel"),
     (BASE, r"return find_neighbors\(parameters\[neighbors_method\], begin, end, d,", "return find_neighbors(parameters[neighbors_method], begin, end, kernel_distance,",
      "find_neighbors_with ignores its argument and uses kernel_distance"),
 ]
@@ -628,8 +640,9 @@ def self_test(repo):
     base = render(translate(repo))
     ok, seen = True, 0
     files = [DEFS, METHODS, BASE] + [os.path.relpath(p, repo) for p in glob.glob(os.path.join(repo, METHOD_DIR, "*.hpp"))]
-    for g in ROUTINE_GLOBS:
+    for g in ROUTINE_GLOBS + DEREF_GLOBS:
         files += [os.path.relpath(p, repo) for p in glob.glob(os.path.join(repo, g))]
+    files += CALLBACK_FILES + [TRAITS]
     for rel, pat, rep, desc in MUTATIONS:
         tmp = tempfile.mkdtemp(prefix="t_use_selftest_")
         try:
